@@ -619,6 +619,14 @@ func mutate(r *rand.Rand, s *tokSpec, vs vSettings, dim int) {
 		s.Tamper = pick(r, "payload-swap", "sig-flip")
 	case 9: // extra claims / header
 		s.Extra = pick(r, "jti", "nbf-future", "client_id-other", "scope", "nested", "unicode", "typ-jwt")
+	case 11: // impersonation through sub: the claims name iss, but sub, key and kid are those of ANOTHER client with keys
+		y := pick(r, cA, cB, cZ)
+		if y == s.issOrEmpty() {
+			y = map[string]string{cA: cB, cB: cA, cZ: cA}[y]
+		}
+		o := baseline(r, vs, y)
+		s.Sub, s.SubKind = y, "other-signer"
+		s.Signer, s.Kid, s.KidKind, s.Alg, s.AlgKind = o.Signer, o.Kid, "match", o.Alg, "registered"
 	case 10: // Ed25519 client (outside the provider's allow-list)
 		rk := poolByName["E.ed"]
 		s.Iss, s.Signer, s.Kid, s.KidKind, s.Alg, s.AlgKind = cE, rk.Name, rk.Kid, "match", "EdDSA", "registered"
@@ -633,7 +641,7 @@ func fitAlg(s *tokSpec, rk *regKey) {
 }
 
 // dimension weights: the Ed25519 dimension (10) is rare, it is only a recorded limitation
-var dimChoice = []int{0, 0, 1, 1, 2, 2, 3, 3, 3, 4, 4, 4, 5, 5, 5, 6, 6, 6, 7, 7, 8, 9, 9, 10}
+var dimChoice = []int{0, 0, 1, 1, 2, 2, 3, 3, 3, 4, 4, 4, 5, 5, 5, 6, 6, 6, 7, 7, 8, 9, 9, 10, 11, 11}
 
 // genAssertion draws an assertion: valid (25 %), valid except 1 (45 %) or 2 (20 %) dimensions, or 4 dimensions (10 %).
 func genAssertion(r *rand.Rand, vs vSettings) *tokSpec {
